@@ -248,8 +248,12 @@ Definition seq_nonempty (ops : list sop) : Prop :=
 Definition seq_fresh (ops : list sop) : Prop :=
   Forall (fun o => match o with SBatch l => no_delcur_after_write l false = true | _ => True end) ops.
 
-Lemma refines_memkv : refines_on memkv ByValue mem_R seq_nonempty.
-Proof. exact (refines_of_sim memkv ByValue sim_memkv). Qed.
+(* memkv: the unrestricted statement (the DelCurrent repair of finding C11-F3 has landed) *)
+Lemma refines_memkv : C11_full_statement memkv ByValue mem_R.
+Proof.
+  intros fnd s c ops HR _ Hnp. apply (refines_of_sim memkv ByValue sim_memkv fnd s c ops HR); [|exact Hnp].
+  apply Forall_forall. intros [] _; exact I.
+Qed.
 Lemma refines_tikv : refines_on tikv ByValue tikv_R seq_nonempty.
 Proof. exact (refines_of_sim tikv ByValue sim_tikv). Qed.
 Lemma refines_badger : refines_on badger ByVersion badger_R seq_fresh.
@@ -290,10 +294,8 @@ Proof.
   - exists 0. vm_compute. reflexivity.
 Qed.
 
-Lemma full_memkv_refuted : ~ C11_full_statement memkv ByValue mem_R.
-Proof.
-  apply (refuted_by memkv ByValue mem_R [] (cs_of []) f3_ops).
-  - repeat split; constructor.
-  - vm_compute. repeat constructor.
-  - exists 0. vm_compute. reflexivity.
-Qed.
+(* the old witness of finding C11-F3 (DelCurrent of an empty-valued record whose key is gone) is now answered as the
+   contract demands *)
+Lemma f3_witness_accepted :
+  exists cf, o_run_gen ByValue (fun _ _ => 0) (cs_of []) None (combine f3_ops (snd (a_run memkv [] None f3_ops))) = inl cf.
+Proof. eexists. vm_compute. reflexivity. Qed.
